@@ -53,7 +53,7 @@ def proof_status(plugin):
         errs = [l for l in out.splitlines() if "error" in l]
         broken.append("lake build failed: " + "\n".join(errs[:12]))
         return False, broken, len(names) + len(lemma_names), 0, names
-    bad = vlib.audit_sources()
+    bad = vlib.audit_sources(plugin.LEAN_MODULES + getattr(plugin, "LEMMA_MODULES", []))
     if bad:
         broken.append("forbidden construct in Lean sources: " + "; ".join(bad))
     required = getattr(plugin, "REQUIRED_THEOREMS", [])
@@ -80,6 +80,34 @@ def run_cases(plugin, cases, binaries, need_model=True):
         mcases = [c for c in cases if not c.meta.get("impl_only")]
         model, _ = vlib.run_parallel(vlib.model_binary(), mcases, "model")
     return impl, model, err
+
+
+def generic_search(plugin, rng, binaries, findings, limit=60000):
+    """widened search on the implementation alone: thorough-tier generation with a fresh seed, first failure of the
+    property oracle that no known finding explains"""
+    try:
+        cases = plugin.generate("thorough", rng)
+    except Exception as e:      # a generator problem must not hide the verdict
+        log("search: generator failed: %r" % e)
+        return None
+    if len(cases) > limit:
+        rng.shuffle(cases)
+        cases = cases[:limit]
+    impl, _ = vlib.run_parallel(binaries[plugin.HARNESS], cases, "search")
+    model = {}
+    if hasattr(plugin, "compare") and os.path.exists(vlib.model_binary()):
+        # the known-finding marker of a history comes from the model
+        model, _ = vlib.run_parallel(vlib.model_binary(), cases, "searchm")
+    for c in cases:
+        il = impl.get(c.id, [])
+        if model:
+            plugin.compare(c, il, model.get(c.id) or [])
+        f = plugin.oracle(c, il)
+        if f:
+            fid = plugin.classify(c, f, il, findings) if hasattr(plugin, "classify") else None
+            if not fid:
+                return (c, f, il)
+    return None
 
 
 def main():
@@ -210,9 +238,9 @@ def main():
         if broken_reasons:
             # search the implementation for a concrete failing input
             found = None
-            if not build_broken and hasattr(plugin, "search"):
+            if not build_broken:
                 log("proof or correspondence broken; searching for a failing input")
-                found = plugin.search(rng.fork("search"), binaries, log)
+                found = generic_search(plugin, rng.fork("search"), binaries, findings)
             if found:
                 c, fail, il = found
                 text = "# property %s violated on the implementation (found by the widened search)\n# %s\n%s# implementation output:\n%s\n" % (
